@@ -17,7 +17,7 @@
 -/
 import KatdalModel.Lemmas.FirstStage
 import KatdalModel.Lemmas.Compose
-import KatdalModel.Lemmas.ConcatSlice
+import KatdalModel.Lemmas.ConcatList
 open Np Index LazyIx
 
 namespace C05
@@ -243,6 +243,44 @@ theorem c05_concat_slice (lens : List Nat) (hlens : lens ≠ []) (a b c : Option
     concatHead lens (.slice a b c) = concatSpec lens (.slice a b c) :=
   concatHead_slice lens hlens a b c hc
 
+/-- **Concatenated indexer, integer-list head index** (strictly increasing, non-negative, in range —
+    the supported form): scattering the entries over the parts and gathering the parts' answers
+    reads exactly what the list applied to the concatenation reads, in order; any number and sizes
+    of parts incl. empty parts -/
+theorem c05_concat_list (lens : List Nat) (l : List Int) (hinc : l.Pairwise (· < ·))
+    (hb : ∀ v ∈ l, 0 ≤ v ∧ v < total lens) :
+    concatHead lens (.list l) = concatSpec lens (.list l) := concatHead_list lens l hinc hb
+
+/-- an integer list with a negative entry is rejected (TypeError) before anything is read
+    (repaired in /repo commit 19788aa: such entries used to be left as uninitialised memory) -/
+theorem c05_concat_list_negative_rejected (lens : List Nat) (l : List Int) (h : ∃ v ∈ l, v < 0) :
+    concatHead lens (.list l) = .error .type := by
+  rw [concatHead_list_unfold]
+  have : l.any (· < 0) = true := by
+    rw [List.any_eq_true]; obtain ⟨v, hv, hlt⟩ := h; exact ⟨v, hv, by simpa using hlt⟩
+  rw [this]; rfl
+
+/-- head-axis forms of the property's grammar on a concatenation of total length `n` -/
+def headInG (n : Nat) : Ix → Bool
+  | .int i => decide (-(n : Int) ≤ i ∧ i < n)
+  | .slice _ _ c => decide (c.getD 1 > 0)
+  | .mask m => decide (m.length = n)
+  | .list l => strictInc l && l.all (fun v => decide (0 ≤ v ∧ v < n))
+
+/-- **Indexing across part boundaries returns the same as indexing the concatenated arrays**
+    (head axis): for every supported head index and every non-empty list of parts of any sizes, the
+    (part, local position) pairs read are those of numpy's meaning of the index on the
+    concatenation, in the same order, and the scalar flag agrees -/
+theorem c05_concat_head (lens : List Nat) (hlens : lens ≠ []) (ix : Ix) (hG : headInG (total lens) ix = true) :
+    concatHead lens ix = concatSpec lens ix := by
+  cases ix with
+  | int i => exact concatHead_int lens i (by simpa [headInG] using hG)
+  | slice a b c => exact concatHead_slice lens hlens a b c (by simpa [headInG] using hG)
+  | mask m => exact concatHead_mask lens m (by simpa [headInG] using hG)
+  | list l =>
+    simp only [headInG, Bool.and_eq_true, List.all_eq_true, decide_eq_true_eq] at hG
+    exact concatHead_list lens l ((strictInc_iff_pairwise l).mp hG.1) hG.2
+
 /-- negative-step head slices are NOT covered: the code answers with other rows than numpy
     (known finding C05-concat-negative-step; replayed on the implementation by the harness) -/
 theorem c05_concat_slice_negstep_is_false :
@@ -268,6 +306,8 @@ example : concatHead [3, 2] (.slice (some 4) (some 1) none) = .ok (false, []) :=
 example : concatHead [3, 0, 3] (.slice (some (-5)) none (some 2)) = .ok (false, [(0, 1), (2, 0), (2, 2)]) := by decide
 example : concatHead [3, 3] (.slice (some 1) (some 6) (some 2)) = concatSpec [3, 3] (.slice (some 1) (some 6) (some 2)) := by decide
 example : concatHead [2, 0, 3] (.list [1, 2, 4]) = concatSpec [2, 0, 3] (.list [1, 2, 4]) := by decide
+example : concatHead [2, 0, 3] (.list [1, 2, 4]) = .ok (false, [(0, 1), (2, 0), (2, 2)]) := by decide
+example : headInG (total [2, 0, 3]) (.list [1, 2, 4]) = true ∧ headInG (total [2, 0, 3]) (.slice (some (-4)) none (some 3)) = true := by decide
 -- repeated equal entries are rejected (the defect repaired in /repo commit 35c2508)
 example : getitem1 6 (.slice none none none) (.list [2, 2]) = .error .type := by decide
 -- all-False mask is an empty selection (the defect repaired in /repo commit 51619a3)
